@@ -76,7 +76,7 @@ Machine == /\ st.phase # "Pick"
            /\ \E ev \in MachineEvents(c, st) : Canon(ev) /\ Take(ev, 0, FALSE)
 
 (* strategy / data choices *)
-UserOp == /\ st.phase \in HookPhases
+UserOp == /\ st.phase \in HookPhases \cup {"Notify"}
           /\ hops < MaxOpsPerHook
           /\ \E m \in Markets(c), k \in {"w", "n", "wx"} :
                LET acc == Accepts(st, m, k) IN
